@@ -80,7 +80,7 @@ def subst_case(draw, kinds=PLAIN_KINDS, sat=True, depth_choices=(0, 1, 1, 2, 2, 
                                     "spec": draw(specs.spec_strategy(depth=0, sat=True))})
         if draw(st.integers(0, 3)) == 0:
             spec = {"t": "list", "form": "typed", "elem": spec}
-    elif draw(st.integers(0, 11)) == 0:
+    elif draw(st.integers(0, 7)) == 0:
         # an any-union whose alternatives accept the value but cannot take it: relaxed dict + extra key,
         # untyped dict / list + a member that cannot be converted
         member = draw(specs.spec_strategy(depth=0, sat=True))
